@@ -54,12 +54,7 @@ var c06Forward = probe.Define("C06", "forward", func(t *rapid.T) protIn { return
 		}
 		labels := append(suiteLabels(in), in.Msg.Labels()...)
 		if len(in.Entropy) > 0 {
-			found := false
-			for _, c := range chunks {
-				if len(c) == 16 && bytes.Equal(c, o.IV) {
-					found = true
-				}
-			}
+			found := bytes.Contains(bytes.Join(chunks, nil), o.IV)
 			if !found {
 				return probe.Fail("IV %x was not drawn from the random source", o.IV)
 			}
